@@ -386,7 +386,7 @@ def check(spec, ctx):
 
     gt.optimize_geometry = wrapped
     old = signal.signal(signal.SIGALRM, handler)
-    signal.alarm(40)
+    signal.setitimer(signal.ITIMER_REAL, 40, 1.0)
     try:
         topology = Topology.from_gmx_topfile(str(top), "test")
         topology.preprocess()
@@ -399,7 +399,7 @@ def check(spec, ctx):
     except Exception as err:
         raise crash("templates:crash", err)
     finally:
-        signal.alarm(0)
+        signal.setitimer(signal.ITIMER_REAL, 0)
         signal.signal(signal.SIGALRM, old)
         gt.optimize_geometry = orig_opt
     # (4) optimiser verdicts
